@@ -2,7 +2,7 @@
 # mix entries: (profile, variant, share).  nontrivial: list of alternatives, each a list of "probe" or "probe>=N" terms.
 prop("DEV", mix=[("base", "default", 1.0)], quick_s=20, claims_all=True, rule="dev profile", nontrivial=[])
 
-prop("C01",
+prop("C01", also=["C04/wrong-response", "C04/missing-response"],
      mix=[("c01", "default", 3), ("c01", "small", 2), ("c01", "batch1", 1), ("base", "default", 1)],
      quick_mix=[("c01", "default", 2), ("c01", "small", 1)],
      quick_s=25, thorough_s=600,
@@ -11,7 +11,7 @@ prop("C01",
      nontrivial=[["notify_add"]],
      required_probes=["add_then_fetch", "notify_change", "notify_remove", "unfetch_with_live_elements", "owner_disconnect_with_subscribers", "multi_message_read"])
 
-prop("C03",
+prop("C03", also=["C14/wrong-deadline", "C14/early-expiry", "C14/no-timeout-answer", "C05/missing-response", "C02/unexpected-response", "C02/missing-response"],
      mix=[("c03", "default", 3), ("c03", "small", 2), ("c03", "batch1", 1)],
      quick_mix=[("c03", "default", 2), ("c03", "small", 1)],
      quick_s=25, thorough_s=600,
@@ -47,7 +47,7 @@ prop("C14",
      nontrivial=[["timer_armed", "timed_out"], ["timer_armed", "owner_replied"]],
      required_probes=["timed_out", "owner_replied", "timer_and_io_same_batch", "timer_and_disconnect_same_batch", "timeout_precedence:request", "timeout_precedence:element", "timeout_precedence:default", "timeout_refused", "expiry_after_resolution"])
 
-prop("C02",
+prop("C02", also=["C03/unexpected-response", "C03/missing-response", "C03/wrong-response", "C05/missing-response", "C14/no-timeout-answer", "C14/unexpected-response"],
      mix=[("c02", "default", 3), ("c02", "small", 1), ("base", "default", 1), ("base", "batch1", 0.5)],
      quick_mix=[("c02", "default", 2), ("base", "default", 1)],
      quick_s=25, thorough_s=600,
@@ -65,7 +65,7 @@ prop("C06",
      nontrivial=[["ledger_request"], ["ws_upgraded"], ["drop:length prefix above the maximum"]],
      required_probes=["ws_upgraded", "drop:length prefix above the maximum", "drop:websocket payload above the maximum", "canary_ok", "short_read", "multi_message_read"])
 
-prop("C07",
+prop("C07", opts={"memprop": "C07"},
      mix=[("c07", "default", 3), ("c07", "small", 2), ("c06", "default", 1.5), ("c06", "small", 1), ("c05", "default", 1), ("c07", "heapcap", 1)],
      quick_mix=[("c07", "default", 2), ("c07", "small", 1), ("c06", "default", 1)],
      quick_s=30, thorough_s=600,
@@ -99,7 +99,7 @@ prop("C16",
                       "matcher:equals:ci", "matcher:equalsNot:ci", "matcher:startsWith:ci", "matcher:endsWith:ci", "matcher:contains:ci", "matcher:containsAllOf:ci",
                       "rule_refused", "get_rule_refused", "get_with_rule", "repeated_option_key", "add_then_fetch", "notify_add", "get_selected>=2"])
 
-prop("C13",
+prop("C13", also=["C05/connection-not-released", "C07/.*"],
      mix=[("c13", "default", 3), ("c13", "small", 1.5), ("c13", "batch1", 0.5)],
      quick_mix=[("c13", "default", 2), ("c13", "small", 1)],
      quick_s=25, thorough_s=600, opts={"memprop": "C13"},
@@ -109,7 +109,7 @@ prop("C13",
      nontrivial=[["accepted:ws"]],
      required_probes=["http_error_status:400", "http_error_status:404", "truncated_send", "client_close:fin", "client_close:rst", "canary_ok", "idle_baseline_checked", "exit_checked"])
 
-prop("C12",
+prop("C12", also=["C10/.*"],
      mix=[("c12", "default", 3), ("c12", "small", 1.5), ("c12", "batch1", 0.5)],
      quick_mix=[("c12", "default", 2), ("c12", "small", 1)],
      quick_s=25, thorough_s=600, opts={"memprop": "C12"},
@@ -155,11 +155,11 @@ prop("C11",
      nontrivial=[["fault:would_block", "notify_add"], ["fault:write_error", "notify_add"], ["fault:sockerr", "notify_add"], ["fault:accept_failed:103"], ["fault:accept_failed:24"], ["routed_to_faulty_owner"]],
      required_probes=["fault:would_block", "fault:write_error", "fault:sockerr", "fault:stall", "routed_to_faulty_owner", "faulty_peer_dropped_by_daemon", "canary_ok", "notify_change", "owner_replied"])
 
-prop("C15", kind="c15", level="fault_enumeration", corpus=40,
+prop("C15", kind="c15", level="fault_enumeration", corpus=44,
      mix=[("c15", "default", 1), ("c15", "small", 1), ("c15", "wsmall", 1), ("c15", "batch1", 1)],
      quick_mix=[("c15", "default", 1)],
      quick_s=90, thorough_s=1500,
-     rule="fault enumeration: a fixed corpus of 40 short scenarios (4-14 operations each, drawn once from the base, fetch, routing, connection-end, access-control, WebSocket, HTTP, matcher, deadline and namespace generators: every request type, "
+     rule="fault enumeration: a fixed corpus of 44 short scenarios (40 of 4-14 operations each, drawn once from the base, fetch, routing, connection-end, access-control, WebSocket, HTTP, matcher, deadline and namespace generators: every request type, "
           "raw/unix/WebSocket connect and teardown, failed handshakes, routed requests with reply, timeout and disconnects, batches, authentication) is executed once to count its allocations N, then once for every k in 1..N with exactly the k-th "
           "allocation (malloc/calloc/realloc of the daemon, cJSON and zlib included) returning NULL. Oracle: no sanitizer report or crash; start-up failures end in a clean non-zero exit; until the fault the reference model, afterwards at most one response "
           "per request id and none unsolicited; requests sent after the fault's event-loop turn are answered; a fresh client is served at the end; arena, accounted heap, peer count and descriptors are back at the idle baseline after all connections closed and empty at exit. "
